@@ -66,6 +66,10 @@ class IO:
             export_to_csv(tr, d / "tracks.csv", node_ids=subset)
         elif fmt == "csv_names":
             export_to_csv(tr, d / "tracks.csv", node_ids=subset, use_display_names=True)
+        elif fmt == "csv_colors":
+            # the optional colour column: one RGBA per node
+            colors = {n: [((int(n) * 37) % 256) / 255, ((int(n) * 91) % 256) / 255, 0.5, 1.0] for n in tr.graph.nodes}
+            export_to_csv(tr, d / "tracks.csv", node_ids=subset, color_dict=colors)
         elif fmt == "csv_names_tif":
             if tr.segmentation is not None:
                 export_to_csv(tr, d / "tracks.csv", node_ids=subset, use_display_names=True, export_seg=True, seg_path=d / "seg.tif")
@@ -77,7 +81,9 @@ class IO:
             else:
                 export_to_csv(tr, d / "tracks.csv", node_ids=subset)
         elif fmt in ("geff2", "geff3"):
-            if overwrite:
+            if overwrite == "existing":
+                export_to_geff(tr, d / "store.zarr", overwrite=True, node_ids=subset, zarr_format=int(fmt[-1]))
+            elif overwrite:
                 # overwrite into a non-empty store: write once, then again with overwrite
                 export_to_geff(tr, d / "store.zarr", node_ids=subset, zarr_format=int(fmt[-1]))
                 export_to_geff(tr, d / "store.zarr", overwrite=True, node_ids=subset, zarr_format=int(fmt[-1]))
@@ -231,13 +237,24 @@ class IO:
         if sim.seg_ref is None and tr.segmentation is not None and sim.active("C15"):
             sim.seg_ref = np.array(tr.segmentation, copy=True)
         reuse = kind == "save" and op.get("reuse_dir") and sim.saves.get("internal") and not op.get("fault")
+        fam = "geff" if fmt.startswith("geff") else "csv"
+        prev = sim.exports.get(fam) if kind == "export" and op.get("into_prev") and not op.get("fault") else None
+        if prev is not None and op["into_prev"] == "refuse" and fmt.startswith("geff"):
+            return self._refused_reexport(sim, op, fmt, prev, subset)
+        overwrite = op.get("overwrite", False)
         if reuse:
             d = sim.saves["internal"]["dir"]
             sim.count("io_save_into_same_dir")
+        elif prev is not None:
+            # export again to the paths of the previous export of this format: CSV and tif
+            # are replaced, GEFF with overwrite=True; nothing of the older export may survive
+            d = prev
+            overwrite = "existing"
+            sim.count("io_export_replaces_previous")
         else:
             d = self.fresh(f"{kind}-{fmt}")
         pre = sim.pre["deep"] if sim.pre.get("deep") is not None else observe.deep(tr, len(sim.emissions))
-        _, exc, seam = self._armed(sim, op, d, lambda dd: self._write(sim, fmt, dd, subset, op.get("overwrite", False)), "w")
+        _, exc, seam = self._armed(sim, op, d, lambda dd: self._write(sim, fmt, dd, subset, overwrite), "w")
         if seam == "twin_failed":
             return None
         out = {"resolved": {"fmt": fmt, "subset": None if subset is None else sorted(subset)}, "tags": [fmt] + ([] if subset is None else ["subset"] if subset else ["subset", "empty_selection"]) + (["pos_disabled"] if fmt == "internal" and tr.segmentation is not None and tr.features.position_key not in tr.annotators.features else []), "io": None if (seam is None or not seam.fired) else list(seam.fired[:2])}
@@ -270,6 +287,13 @@ class IO:
                 sim.violate("C14", f"C14.{chan}.raises", f"{kind} {fmt} raised {out['exc']}: {out.get('msg')}", op, out["tags"], out["exc"])
                 return out
             sim.guard("export_crash", f"{fmt} {out['exc']} {out.get('msg')}")
+        if out["cls"] == "accepted" and kind == "export" and seam.fired is None:
+            sim.exports[fam] = d
+            sim.export_digest[fam] = self._files_digest(d)
+            if prev is not None and subset is None and sim.active("C14") and fmt in ("csv", "csv_tif", "geff2", "geff3"):
+                self._roundtrip_compare(sim, op, "csv" if fmt == "csv_tif" else fmt, d, out, with_pos=not (fmt.startswith("geff") and self._d7_predicate(tr)), why="after exporting again to the same paths")
+                if sim.violations:
+                    return out
         if out["cls"] == "accepted":
             if reuse and sim.active("C14"):
                 # the second save into a directory must replace everything the first one wrote
@@ -475,6 +499,44 @@ class IO:
         if fmt == "internal":
             self._remember(sim, fmt, d, new)
         out["cls"] = "accepted"
+        return out
+
+    def _refused_reexport(self, sim, op, fmt, prev, subset):
+        """A second GEFF export into a directory that holds an earlier one, without
+        overwrite: it has to be refused, and a refused export leaves the files of the
+        earlier, acknowledged export exactly as they were."""
+        tr = sim.tracks
+        out = {"resolved": {"fmt": fmt, "into_prev": "refuse"}, "tags": [fmt, "into_existing_export"]}
+        before = sim.export_digest.get("geff")
+        pre = observe.deep(tr, len(sim.emissions))
+        exc = None
+        try:
+            self._write(sim, fmt, prev, subset, False)
+        except StepTimeout:
+            raise
+        except Exception as e:  # noqa: BLE001
+            exc = e
+        quiesce_io()
+        if sim.active("C16"):
+            dd = observe.deep_diff(pre, observe.deep(tr, len(sim.emissions)), ignore=("counters",))
+            if dd:
+                sim.violate("C16", "C16.export_failed", f"export {fmt} into an existing export (refused) changed {dd[:2]}", op, out["tags"])
+                return out
+            sim.stat("C16.eval")
+        if exc is None:
+            # the library chose to replace it: from now on this is the acknowledged export
+            sim.export_digest["geff"] = self._files_digest(prev)
+            out["cls"] = "accepted"
+            return out
+        out["cls"] = "refused"
+        out["exc"] = type(exc).__name__
+        sim.count("io_reexport_refused")
+        own = "C14" if sim.active("C14") else "C15" if sim.active("C15") else None
+        if own and before is not None and self._files_digest(prev) != before:
+            sim.violate(own, f"{own}.geff.durable" if own == "C14" else "C15.durable", f"export {fmt} into a directory that holds an earlier export raised {type(exc).__name__} (refused) but changed the files of the earlier export", op, out["tags"], type(exc).__name__)
+            return out
+        if own:
+            sim.stat(f"{own}.eval")
         return out
 
     # ---------------------------------------------------- durability of acknowledged saves
